@@ -100,6 +100,59 @@ pub fn gen_trickle(rng: &mut Rng, k: u64) -> Hist {
     Hist { cfg, api, plain, class, steps, tail_out: out.max(64), family: "trickle_one_byte_input" }
 }
 
+/// Call boundaries placed within a few hundred bytes of every multiple of the 32 KiB dictionary
+/// size (after an earlier odd-sized call has misaligned the compressor's 4 KiB refills), on data
+/// in which almost any trigram has an earlier occurrence: the circular dictionary, its mirrored
+/// tail and the hash chains are then updated by calls that straddle the wrap.
+pub fn gen_wrap(rng: &mut Rng, k: u64) -> Hist {
+    let cfg = Config { level: if k % 2 == 0 { 1 } else { (k % 11) as u8 }, strategy: if k % 4 == 3 { *rng.pick(&STRATEGIES) } else { CompressionStrategy::Default }, zlib: rng.bool(), wbits: 15 };
+    let span = if rng.chance(1, 4) { 110_000 } else { 36_000 };
+    let n = 33_000 + rng.below(span);
+    let class = *rng.pick(&[3usize, 4, 4, 5, 11, 17, 13, 2]);
+    let plain = data::gen(rng, class, n);
+    let api = match rng.below(5) {
+        0 => Api::CompressToOutput,
+        1 => Api::Deflate,
+        _ => Api::Compress,
+    };
+    let flushes = [TDEFLFlush::None, TDEFLFlush::None, TDEFLFlush::None, TDEFLFlush::Sync, TDEFLFlush::Partial, TDEFLFlush::Full];
+    let out = *rng.pick(&[200_000usize, 200_000, 4096, 64]);
+    let mut steps = Vec::new();
+    let mut pos = 0usize;
+    if rng.chance(3, 4) {
+        let lim = 5000.min(n - 1);
+        let c = 1 + rng.below(lim);
+        steps.push(CStep { chunk: c, out_len: out, flush: *rng.pick(&flushes) });
+        pos += c;
+    }
+    let mut w = 32_768usize;
+    while w < n + 300 {
+        let target = (w as i64 + rng.range(0, 520) as i64 - 260).max(pos as i64 + 1) as usize;
+        if target >= n {
+            break;
+        }
+        // optionally one more cut on the way there
+        if rng.chance(1, 3) && target > pos + 2 {
+            let c = 1 + rng.below(target - pos - 1);
+            steps.push(CStep { chunk: c, out_len: out, flush: *rng.pick(&flushes) });
+            pos += c;
+        }
+        steps.push(CStep { chunk: target - pos, out_len: out, flush: *rng.pick(&flushes) });
+        pos = target;
+        // sometimes a second cut right behind the first one
+        if rng.chance(1, 3) && pos + 300 < n {
+            let c = 1 + rng.below(260);
+            steps.push(CStep { chunk: c, out_len: out, flush: *rng.pick(&flushes) });
+            pos += c;
+        }
+        w += 32_768;
+    }
+    if pos < n {
+        steps.push(CStep { chunk: n - pos, out_len: out, flush: if rng.bool() { TDEFLFlush::Finish } else { TDEFLFlush::None } });
+    }
+    Hist { cfg, api, plain, class, steps, tail_out: out.max(64), family: "calls_straddling_dictionary_wrap" }
+}
+
 pub fn run_one(prop: &str, rep: &mut Report, h: &Hist) -> Option<(CRun, crate::refimpl::inflate::Outcome)> {
     let mut c = h.cfg.make();
     let run = run_history(&mut c, h.api, &h.plain, &h.steps, h.tail_out);
@@ -167,7 +220,8 @@ pub fn run(ctx: &Ctx, rep: &mut Report) {
     let n_fill = ctx.n(96, 1500);
     let n_thr = ctx.n(1200, 30_000);
     let n_tr = ctx.n(220, 4000);
-    for k in ctx.cases(n + n_fill + n_thr + n_tr) {
+    let n_wr = ctx.n(1600, 30_000);
+    for k in ctx.cases(n + n_fill + n_thr + n_tr + n_wr) {
         rep.cur_case = k;
         crate::ctx::begin_case(k);
         let mut rng = ctx.rng("case", k);
@@ -177,8 +231,10 @@ pub fn run(ctx: &Ctx, rep: &mut Report) {
             gen_lzfill(&mut rng)
         } else if k < n + n_fill + n_thr {
             gen_block_threshold(&mut rng, k)
-        } else {
+        } else if k < n + n_fill + n_thr + n_tr {
             gen_trickle(&mut rng, k)
+        } else {
+            gen_wrap(&mut rng, k)
         };
         let _ = run_one("C02", rep, &h);
     }
